@@ -119,7 +119,11 @@ def run_case(case):
                 res.label("taller_than_screen")
             if any(len(r) > w for r in rows_cells):
                 res.label("wider_than_screen")
-            _, e = call(lambda: win.render_to_terminal(array, tuple(cur)))
+            form = (step + len(rows_cells)) % 4
+            if form == 1 and isinstance(array, list) and not case.get("reuse"):
+                array = tuple(array)  # any sequence of lines
+            _, e = call(lambda: win.render_to_terminal(array, tuple(cur)) if form in (0, 1) else win.render_to_terminal(array, cursor_pos=tuple(cur))
+                        if form == 2 else win.render_to_terminal(array=array, cursor_pos=list(cur)))
             ctx = dict(step=step, h=h, w=w, rows=[show(r) for r in rows_cells][:8], case=case)
             if e is not None:
                 res.viol("render_raised", error=exc_str(e), **ctx)
